@@ -17,14 +17,22 @@ by the correspondence run on every small and many random templates):
    collide (`generated_names_distinct`); the renumbered ellipses `...[k]` are distinct
    (`ellipses_distinct`); for a repeated group of own variables the model emits exactly the
    suffixed names copy by copy (`repeat_emits_copies`) and no name twice (`unique_names_one_level`).
-`unique_names_partial`: for arbitrary nested groups the reduction "every emitted variable has
-its own (base name, stack) pair" is not a theorem; there the factory's duplicate check in the
-model (`mkList`) and the oracle on the real code decide. Base names that already carry an index
+ * **all resulting variable names stay unique, for arbitrary nesting** (`expansion_names_unique`,
+   `expansion_well_formed`, `message_expansion_names_unique`): whatever FillVariables returns for a
+   well-formed template - any depth, any number of nested ellipses and repeated groups, counts,
+   values and well-formed fill-in items in one table - is again well formed: every name valid, at
+   most one ellipsis per list and not first, and no name twice anywhere in the tree
+   (Proofs/FillWF.lean: well-formedness is an invariant of every factory, of every one-node fill,
+   of `emitSlots`/`emitRepeat`/`fillEllT` and of `fill`). What is NOT a theorem is the converse
+   direction "an expansion of distinct plain names is never refused for a collision" beyond one
+   level (`unique_names_one_level`); a refusal is visible to the caller, a duplicate would not be.
+Base names that already carry an index
 group (`x[1]`) are outside the injectivity lemma — and indeed collide with generated names
 (`indexed_base_collides`), which is why the real code refuses such expansions.
 -/
 import SecsModel.Model.Fill
 import SecsModel.Proofs.EllipsisNames
+import SecsModel.Proofs.FillWF
 import SecsModel.Generated.Facts
 namespace Secs.C10
 open Secs
@@ -187,6 +195,40 @@ theorem unique_names_one_level (names : List Name) (outer : List Nat) (n : Nat)
     ((List.range (n + 1)).flatMap (fun j => names.map (fun x => x ++ idxSuffix (outer ++ [j])))).Nodup :=
   copies_nodup names outer n hp hn
 
+/-- **All resulting variable names stay unique** - for every well-formed template (any depth, any
+number of nested ellipses), every table of repeat counts, values, new names and well-formed
+fill-in items: if FillVariables returns a tree, no name occurs twice anywhere in it. -/
+theorem expansion_names_unique (t t' : Tmpl) (env : Env) (hw : t.wf = true) (henv : Env.itemsWfS env = true)
+    (h : t.fill env = some t') : nodupNames t'.vars = true :=
+  fill_names_unique t t' env (wfS_of_wf t hw) henv h
+
+/-- … and it is well formed altogether (names valid, one ellipsis per list at most and never
+first, sizes within the limit, integer and binary values in range) -/
+theorem expansion_well_formed (t t' : Tmpl) (env : Env) (hw : t.wf = true) (henv : Env.itemsWfS env = true)
+    (h : t.fill env = some t') : t'.wfS = true :=
+  t.fill_wfS t' env (wfS_of_wf t hw) henv h
+
+/-- tables of repeat counts and plain values need no side condition -/
+theorem expansion_names_unique_counts (t t' : Tmpl) (env : Env) (hw : t.wf = true)
+    (hplain : ∀ kv ∈ env, ∀ x, kv.2 ≠ GoVal.item x) (h : t.fill env = some t') : nodupNames t'.vars = true :=
+  expansion_names_unique t t' env hw (Env.itemsWfS_of_no_items env hplain) h
+
+/-- the same through a message -/
+theorem message_expansion_names_unique (m m' : Msg) (env : Env) (hw : m.item.wf = true) (henv : Env.itemsWfS env = true)
+    (h : m.fill env = some m') : nodupNames m'.item.vars = true := by
+  unfold Msg.fill at h
+  cases hf : m.item.fill env with
+  | none => simp [hf] at h
+  | some it =>
+    simp only [hf, Option.bind_some] at h
+    have : m'.item = it := by
+      unfold checked at h
+      split at h
+      · injection h with h; rw [← h]
+      · cases h
+    rw [this]
+    exact expansion_names_unique m.item it env hw henv hf
+
 /-- a base name that already carries an index group collides with a generated name: `x[1]` in
 copy 0 … is not what collides, but `x` in copy 1 and the base name `x[1]` kept outside the group -/
 theorem indexed_base_collides : ([120] : Name) ++ idxSuffix [1] = [120, 91, 49, 93] ++ idxSuffix [] := by
@@ -203,5 +245,14 @@ theorem facts_ellipsis_pattern :
 /-! ### non-vacuity: <L <U1 v> ...> filled with 2 gives v[0] v[1] v[2] -/
 example : ((Tmpl.list (.item (.uint 1 [.var [118]]) (.var [46, 46, 46] .nil))).fill [([46, 46, 46], .sint 0 2)]).map Tmpl.vars
     = some [[118, 91, 48, 93], [118, 91, 49, 93], [118, 91, 50, 93]] := by decide +kernel
+
+/-! ### non-vacuity of the nested case (a test): `<L <L <U1 v> ...[0]> <A w> ...[1]>` with the inner
+ellipsis filled with 1 and the outer with 2 is well formed, the fill succeeds and yields nine names -/
+def nestedTmpl : Tmpl :=
+  .list (.item (.list (.item (.uint 1 [.var [118]]) (.var [46, 46, 46, 91, 48, 93] .nil)))
+    (.item (.asciiVar [119] 0 (-1)) (.var [46, 46, 46, 91, 49, 93] .nil)))
+def nestedEnv : Env := [([46, 46, 46, 91, 48, 93], .sint 0 1), ([46, 46, 46, 91, 49, 93], .sint 0 2)]
+example : nestedTmpl.wf = true ∧ Env.itemsWfS nestedEnv = true ∧
+    ((nestedTmpl.fill nestedEnv).map (fun t => t.vars.length)) = some 9 := by decide +kernel
 
 end Secs.C10
